@@ -318,6 +318,10 @@ macro_rules! k_struct_res_reject {
             tape.preload(K_U, 2, 0);
             tape.preload(K_U, 4, $po);
             tape.record = false;
+            // the stream ends right after the partition order: a parser that wrongly goes on to read partitions
+            // gets an I/O error at once (and so returns something other than InvalidPartitionOrder) instead of
+            // dragging CBMC through the Vec-collecting partition loop
+            tape.failed = true;
             let res = <Residuals<i32> as FromBitStreamUsing>::from_reader(&mut tape, ($block, $order));
             vk_assert!(matches!(res, Err(Error::InvalidPartitionOrder)), "structural parser accepted a partition order RFC 9639 9.2.7 forbids for this block");
         }
